@@ -81,7 +81,14 @@ def run(pid, tier):
         for k in range(rng.randint(3, 7)):
             msgs.append(list(b'E?\n') if rng.random() < 0.35 else [65 + rng.randrange(26) for _ in range(rng.randint(1, 11))] + [10])
         scen.append(dict(table=ttab, scripts=tscr, buf=64, qcap=rng.choice([2, 4]), heap=rng.choice([6, 8, 9, 12, 16, 20]), mode='I', chunks=msgs, meta=dict(hdrs=[])))
-    pc.event_traces(rep, 'C01', [s for s in scen if s.get('mode', 'I') == 'I'][::max(1, len(scen) // 4000)], 'C01')   # every call returns, as ScpiInputLoop prescribes
+    # every call returns, as ScpiInputLoop prescribes: streams with a quote, '#' or a byte >= 128 first (open strings and blocks), then a stride of the rest
+    evs = [s for s in scen if s.get('mode', 'I') == 'I']
+    hot = [s for s in evs if any(b in (34, 35, 39) or b >= 128 for c in s['chunks'] for b in c)]
+    cold = [s for s in evs if not any(b in (34, 35, 39) or b >= 128 for c in s['chunks'] for b in c)]
+    ncap = 24000 if tier == 'quick' else 160000
+    hot = hot[::max(1, -(-len(hot) // (ncap * 3 // 4)))]
+    cold = cold[::max(1, -(-len(cold) // (ncap // 4)))]
+    pc.event_traces(rep, 'C01', hot + cold, 'C01')
     for b in BUILDS:
         obs = pc.execute(rep, scen, b, 'C01' + b)
         if b == 'default':
